@@ -627,13 +627,16 @@ func (g *gen) headers(n int) {
 		if h == 0 {
 			h = 1
 		}
-		ok, qn := logical.VerifC16ValidateProve(pi, h, wm, t)
+		var qn uint64
+		hx.Guard(func() string { // validateProve panics when workingMiners > totalStake after the fork height
+			_, qn = logical.VerifC16ValidateProve(pi, h, wm, t)
+			return ""
+		})
 		ptq := uint64(r.Intn(1000))
 		tq := ptq + qn
 		if r.Chance(1, 5) {
 			tq++
 		}
-		_ = ok
 		pv := new(big.Int).SetBytes(pi).Bytes()
 		if r.Chance(1, 6) {
 			pv = flip(pv, r.Intn(8*len(pv)))
